@@ -83,8 +83,26 @@ def names(ctx):
     f_try, f_raw = facts.fn("common::headers::Header::try_from"), facts.fn("common::headers::Header::raw")
     ctx.touched(f_try, f_raw)
     raw = enum_const_table(facts, f_raw, "common::headers::Header")
-    acc, subjects, other_ok = string_matcher(facts, f_try)
-    ctx.ob("R15.1", "names|only-by-comparison", not other_ok, "every Ok of Header::try_from is selected by == with a constant", f_try.loc(0))
+    from ..tables import table_search
+    H_ = "common::headers::Header"
+    ts = table_search(facts, f_try, H_)
+    info = {}
+    if ts is not None:
+        # written as a search of a table of all headers for the one whose name matches
+        ci = ts["mode"] == "ascii-ci"
+        tbl = raw if ts["item_fn"] == f_raw.name else enum_const_table(facts, facts.fns[ts["item_fn"]], H_)
+        acc = {}
+        for v in ts["variants"]:
+            b = tbl[v]
+            k_ = (b if isinstance(b, bytes) else str(b).encode()).decode("latin-1")
+            acc.setdefault(k_.lower() if ci else k_, v)
+        subjects, other_ok = [ts["subject"]], []
+        info["ci"] = ci
+    else:
+        acc, subjects, other_ok = string_matcher(facts, f_try, info=info, adt=H_)
+        acc = {(k_.decode("latin-1") if isinstance(k_, bytes) else k_): v for k_, v in acc.items()}
+    ci = bool(info.get("ci"))
+    ctx.ob("R15.1", "names|only-by-comparison", not other_ok, "every Ok of Header::try_from is selected by a comparison with a constant", f_try.loc(0))
     ctx.ob("R15.1", "names|one-subject", len({norm(s) for s in subjects}) == 1, "all comparisons test the same derived string", f_try.loc(0))
     want = {}
     for var, b in raw.items():
@@ -94,10 +112,10 @@ def names(ctx):
         ctx.ob("R15.1", "names|recognises|%s" % var, acc.get(s) == var, "lower-cased %r -> %s (found %s)" % (s, var, acc.get(s)), f_try.loc(0))
     for s, var in acc.items():
         ctx.ob("R15.1", "names|accepts|%s" % s, want.get(s) == var, "compared constant %r -> %s is the lower-cased canonical name" % (s, var), f_try.loc(0))
-        ctx.ob("R15.1", "names|constant-is-lowercase|%s" % s, s == s.lower() and s == s.strip(), "constant %r is lower-case and has no surrounding space" % s, f_try.loc(0))
+        ctx.ob("R15.1", "names|constant-is-lowercase|%s" % s, (s == s.lower() or ci) and s == s.strip(), "constant %r is lower-case (or compared ignoring ASCII case) and has no surrounding space" % s, f_try.loc(0))
     for subj in subjects[:1]:
         tr = transforms(subj)
-        ctx.ob("R15.1", "names|case-insensitive", any(x in LOWER for x in tr) and not any(x in CASEFOLD and x not in LOWER for x in tr), "the compared string is lower-cased first (calls: %s)" % tr, f_try.loc(0))
+        ctx.ob("R15.1", "names|case-insensitive", (ci or any(x in LOWER for x in tr)) and not any(x in CASEFOLD and x not in LOWER for x in tr), "the compared string is lower-cased first, or compared with eq_ignore_ascii_case (calls: %s)" % tr, f_try.loc(0))
         ctx.ob("R15.1", "names|trimmed", "trim" in tr, "the compared string passes through trim()", f_try.loc(0))
         unknown = [x for x in tr if x not in NEUTRAL_STR and x not in TRIM and x not in CASEFOLD]
         ctx.ob("R15.1", "names|known-normalisers", not unknown, "only identity/trim/lower-case calls between input and comparison (unrecognised: %s)" % unknown, f_try.loc(0))
@@ -352,17 +370,34 @@ def line(ctx):
     ctx.ob("R15.5", "one-parse", n == 1, "%d parse call(s) in parse_header_line" % n, fn.loc(0))
     fty = [f for f in facts.struct_fields(H) if f["name"] == "content_length"]
     ctx.ob("R15.5", "field-u32", fty and fty[0]["ty"]["s"] == "u32", "Headers.content_length is a %s" % (fty[0]["ty"]["s"] if fty else "?"))
-    # Default
+    headers_default(ctx, "R15.4")
+
+
+def headers_default(ctx, rule, fields=("content_length", "expect", "chunked", "custom_entries", "accept")):
+    """What a request starts from: Headers::default() is length 0, expect false, chunked false, no custom entries, accept PlainText
+    (as literals or as Default::default() of the field type)."""
+    facts = ctx.facts
     fd = facts.fn("<common::headers::Headers as std::default::Default>::default")
     ctx.touched(fd)
     names_ = [f["name"] for f in facts.struct_fields(H)]
+    want = {"content_length": 0, "expect": False, "chunked": False}
+    n = 0
     for lf in PathEnum(fd, facts).run():
         r = lf.ret()
-        ok = r[0] == "agg" and r[1] == H
-        if ok:
-            acc = r[3][names_.index("accept")]
-            ok = acc[0] == "agg" and acc[2] == "PlainText" and all(is_call(r[3][names_.index(f)], "default") for f in ("content_length", "expect", "chunked", "custom_entries"))
-        ctx.ob("R15.4", "default", ok, "Headers::default: length/expect/chunked/custom are Default::default() (0/false/false/empty), accept = PlainText", fd.loc(0))
+        n += 1
+        if not (r[0] == "agg" and r[1] == H):
+            ctx.fail(rule, "default|not-a-literal", "Headers::default does not return a literal", fd.loc(0))
+            continue
+        for f in fields:
+            v = look(r[3][names_.index(f)])
+            if f == "accept":
+                ok = v[0] == "agg" and v[2] == "PlainText"
+            elif f == "custom_entries":
+                ok = v[0] == "call" and not v[2] and last_seg(v[1]) in ("default", "new")
+            else:
+                ok = (v[0] == "call" and not v[2] and last_seg(v[1]) == "default") or (v[0] == "const" and v[1] == want[f] and type(v[1]) is type(want[f]))
+            ctx.ob(rule, "default|%s" % f, ok, "Headers::default().%s is %s" % (f, {"accept": "PlainText", "custom_entries": "empty"}.get(f, repr(want.get(f)))), fd.loc(0))
+    ctx.ob(rule, "default|floor", n >= 1, "%d path(s) of Headers::default inspected" % n, fd.loc(0))
 
 
 def result_pattern(conds, is_result):
